@@ -111,7 +111,14 @@ func Harness_C14_delta() {
 	obs := vNewState("obs", rec)
 	known := v.Choose("known", 2) == 1
 	if known {
-		vViewOf("w", obs, o, oc, K)
+		w := vViewOf("w", obs, o, oc, K)
+		// the node may currently be considered unreachable (e.g. its leave
+		// arrives through a relay afterwards)
+		if !w.Left && v.Choose("w.unreachable", 2) == 1 {
+			w.Unreachable = true
+			w.Expiry = v.Time("w.expiry")
+			v.Cover("view-unreachable")
+		}
 	}
 	fold := vFoldOf(obs)
 	dg := obs.Digest()
